@@ -41,6 +41,8 @@ type fnCfg struct {
 	params  string          // unused (binders are derived from the Go signature)
 	optIdx  map[int]bool    // positions of Go parameters that may be nil
 	optPar  map[string]bool // (legacy) Go parameters that may be nil
+	optTy   map[string]bool // named types (pointer / interface) whose parameters may be nil
+	optOut  []bool          // (out) which parameters are optional, in order
 	result  string          // Coq result type
 	optRes  bool            // result is option
 	partial bool            // body may panic: results wrapped in Ok, index failure = Err EPanic
@@ -48,6 +50,7 @@ type fnCfg struct {
 	noCis   bool
 	lit     *ast.FuncLit // translate this function literal instead of the declaration named key
 	litRecv string       // the slice the literal's int parameters index (elem mode)
+	site    string       // also emit <name>_at: the call of the function in this caller, over canonical variables
 	chk     bool         // also emit <name>_chk : res _, the same function with element reads X[i] that may panic
 	binders []string     // (out) the binders of the definition
 }
@@ -1270,6 +1273,13 @@ func translateIn(g *G, cfg *fnCfg) (string, error) {
 	for _, f := range ftype.Params.List {
 		for _, n := range f.Names {
 			opt := cfg.optIdx[pos]
+			if pty := p.Info.Defs[n]; pty != nil && cfg.optTy[named(pty.Type())] {
+				switch pty.Type().Underlying().(type) {
+				case *types.Pointer, *types.Interface:
+					opt = true
+				}
+			}
+			cfg.optOut = append(cfg.optOut, opt)
 			pos++
 			if cfg.elem {
 				// the int parameters of Less(i, j) denote the elements recv[i], recv[j]
@@ -1682,6 +1692,203 @@ func commitInfoStart(p *tr.Pkg) (string, error) {
 	return "", fmt.Errorf("CommitInfoStart not found")
 }
 
+// callSite renders the one call of cfg's function inside caller as a definition over canonical
+// variables chosen by TYPE (the caller's locals may have any names):
+//
+//	*shared.Child -> v_current : option child      ChildList -> v_child : list child
+//	Parent        -> v_nextParent : option parent   *Options  -> v_opts : opts
+//
+// so that the obligation is stated about what the caller passes (the whole options or one field of
+// them, in any parameter order) and not about the parameter list.
+func callSite(g *G, cfg *fnCfg) (string, error) {
+	p := g.p
+	// the call is looked for in the named caller first, then anywhere in the package (the loop body
+	// of the caller may have been moved into a function or method of its own)
+	var calls []*ast.CallExpr
+	find := func(fd *ast.FuncDecl) {
+		if fd == nil || fd.Body == nil {
+			return
+		}
+		ast.Inspect(fd.Body, func(n ast.Node) bool {
+			if c, ok := n.(*ast.CallExpr); ok {
+				if id, ok := c.Fun.(*ast.Ident); ok && id.Name == cfg.key {
+					calls = append(calls, c)
+				}
+			}
+			return true
+		})
+	}
+	find(p.FuncDecls()[cfg.site])
+	if len(calls) == 0 {
+		var keys []string
+		for k := range p.FuncDecls() {
+			keys = append(keys, k)
+		}
+		sort.Strings(keys)
+		for _, k := range keys {
+			if k != cfg.site && k != cfg.key {
+				find(p.FuncDecls()[k])
+			}
+		}
+	}
+	if len(calls) != 1 {
+		return "", fmt.Errorf("%s: expected exactly one call in %s, found %d", cfg.key, cfg.site, len(calls))
+	}
+	call := calls[0]
+	if len(call.Args) != len(cfg.optOut) {
+		return "", fmt.Errorf("%s: call in %s has %d arguments", cfg.key, cfg.site, len(call.Args))
+	}
+	t := &T{p: p, cfg: &fnCfg{key: cfg.key + " (call in " + cfg.site + ")"}, env: map[string]*varInfo{}, recs: map[string]map[string]string{}, idxElem: map[string]string{}, g: g}
+	canon := map[string]*varInfo{"Child": {coq: "v_current", opt: true}, "ChildList": {coq: "v_child"}, "Parent": {coq: "v_nextParent", opt: true}, "Options": {coq: "v_opts"}}
+	taken := map[string]string{}
+	var bad error
+	for _, a := range call.Args {
+		ast.Inspect(a, func(n ast.Node) bool {
+			id, ok := n.(*ast.Ident)
+			if !ok {
+				return true
+			}
+			v, isVar := p.Info.Uses[id].(*types.Var)
+			if !isVar || v.IsField() || v.Pkg() != p.Types {
+				return true
+			}
+			c := canon[named(v.Type())]
+			if c == nil {
+				bad = fmt.Errorf("%s: call in %s mentions %s of type %s", cfg.key, cfg.site, id.Name, v.Type())
+				return true
+			}
+			if prev, ok := taken[c.coq]; ok && prev != id.Name {
+				bad = fmt.Errorf("%s: call in %s mentions two variables of type %s", cfg.key, cfg.site, v.Type())
+			}
+			taken[c.coq] = id.Name
+			t.env[id.Name] = c
+			return true
+		})
+	}
+	if bad != nil {
+		return "", bad
+	}
+	out := "(* the call of " + cfg.key + " in " + cfg.site + ": " + t.src(call) + " *)\nDefinition " + cfg.name + "_at (cis : Z) (v_current : option child) (v_child : list child) (v_nextParent : option parent) (v_opts : opts) : " + cfg.result + " :=\n  " + cfg.name + " cis"
+	for i, a := range call.Args {
+		v, opt, err := t.expr(a)
+		if err != nil {
+			return "", err
+		}
+		switch {
+		case cfg.optOut[i] && !opt:
+			v = "(Some " + v + ")"
+		case !cfg.optOut[i] && opt:
+			return "", t.errf(a, "possibly nil argument %s", t.src(a))
+		}
+		out += " " + v
+	}
+	return out + ".\n", nil
+}
+
+// concurrent lists the constructs of concurrent execution in the code of package p reachable from the
+// root functions: go statements, channel types and operations, select, anything of sync or
+// sync/atomic.  Reachable = called functions of the package, and every method of a package type that
+// occurs (by name or as the type of an expression) in reachable code — calls through interfaces of
+// other packages land on such methods.  The annotation model is sequential: it cannot stand for
+// code that runs children on several goroutines.
+func concurrent(p *tr.Pkg, roots []string) (found []string, reached int, err error) {
+	decls := p.FuncDecls()
+	byObj := map[types.Object]*ast.FuncDecl{}
+	methods := map[string][]*ast.FuncDecl{}
+	for _, fd := range decls {
+		if obj := p.Info.Defs[fd.Name]; obj != nil {
+			byObj[obj] = fd
+		}
+		if fd.Recv != nil && len(fd.Recv.List) == 1 {
+			r := tr.RecvName(fd.Recv.List[0].Type)
+			methods[r] = append(methods[r], fd)
+		}
+	}
+	seen := map[*ast.FuncDecl]bool{}
+	var queue []*ast.FuncDecl
+	push := func(fd *ast.FuncDecl) {
+		if fd != nil && fd.Body != nil && !seen[fd] {
+			seen[fd] = true
+			queue = append(queue, fd)
+		}
+	}
+	for _, r := range roots {
+		if decls[r] == nil {
+			return nil, 0, fmt.Errorf("%s: not found in source", r)
+		}
+		push(decls[r])
+	}
+	pushType := func(ty types.Type) {
+		for {
+			if pt, ok := ty.(*types.Pointer); ok {
+				ty = pt.Elem()
+				continue
+			}
+			break
+		}
+		if n, ok := ty.(*types.Named); ok && n.Obj().Pkg() == p.Types {
+			for _, m := range methods[n.Obj().Name()] {
+				push(m)
+			}
+		}
+	}
+	isSync := func(obj types.Object) bool {
+		return obj != nil && obj.Pkg() != nil && (obj.Pkg().Path() == "sync" || obj.Pkg().Path() == "sync/atomic")
+	}
+	add := func(n ast.Node, what string) { found = append(found, p.Pos(n)+": "+what) }
+	for len(queue) > 0 {
+		fd := queue[0]
+		queue = queue[1:]
+		reached++
+		ast.Inspect(fd, func(n ast.Node) bool {
+			switch x := n.(type) {
+			case *ast.GoStmt:
+				add(x, "go statement")
+			case *ast.SendStmt:
+				add(x, "channel send")
+			case *ast.SelectStmt:
+				add(x, "select")
+			case *ast.ChanType:
+				add(x, "channel type")
+			case *ast.UnaryExpr:
+				if x.Op == token.ARROW {
+					add(x, "channel receive")
+				}
+			case *ast.RangeStmt:
+				if tv, ok := p.Info.Types[x.X]; ok && tv.Type != nil {
+					if _, isChan := tv.Type.Underlying().(*types.Chan); isChan {
+						add(x, "range over a channel")
+					}
+				}
+			case *ast.Ident:
+				obj := p.Info.Uses[x]
+				if pn, ok := obj.(*types.PkgName); ok {
+					if path := pn.Imported().Path(); path == "sync" || path == "sync/atomic" {
+						add(x, "package "+path)
+					}
+				}
+				if isSync(obj) {
+					add(x, "sync."+obj.Name())
+				}
+				if f, ok := obj.(*types.Func); ok {
+					push(byObj[f])
+				}
+				if tn, ok := obj.(*types.TypeName); ok {
+					pushType(tn.Type())
+				}
+			}
+			if e, ok := n.(ast.Expr); ok {
+				if tv, ok := p.Info.Types[e]; ok && tv.Type != nil {
+					pushType(tv.Type)
+				}
+			}
+			return true
+		})
+	}
+	sort.Strings(found)
+	return found, reached, nil
+}
+
 // sortLess finds the order used by a sorting method: the body is one call, either
 //
 //	sort.Sort(T(us)) / sort.Stable(T(us))         -> T.Less (T's Len and Swap are the usual ones, checked)
@@ -1795,6 +2002,12 @@ func main() {
 					}
 				}
 			}
+			if err == nil && f.site != "" {
+				var at string
+				if at, err = callSite(g, f); err == nil {
+					s += at
+				}
+			}
 			if err != nil {
 				text.WriteString(s) // helpers that were completed before the failure (marked done)
 				fmt.Fprintf(&text, "(* NOT TRANSLATED %s: %v *)\n\n", f.key, err)
@@ -1857,7 +2070,7 @@ func main() {
 		{key: "ChildList.VersionBefore", name: "gen_version_before", params: "(v_cl : list child) (v_end : Z)", result: "option child", optRes: true, chk: true},
 		{key: "nextVersionIndex", name: "gen_next_version_index",
 			params: "(v_current : option child) (v_child : list child) (v_nextParent : option parent) (v_opts : opts)",
-			optIdx: map[int]bool{0: true, 2: true}, result: "res Z", partial: true},
+			optTy: map[string]bool{"Child": true, "Parent": true}, result: "res Z", partial: true, site: "Compute"},
 	})
 	ann, err := tr.Load(filepath.Join(repo, "annotate"), "github.com/paulmach/osm/annotate")
 	if err != nil {
@@ -1901,6 +2114,46 @@ func main() {
 		text.WriteString("(* NOT TRANSLATED defaultThreshold *)\n\n")
 		fmt.Fprintln(os.Stderr, "translator annotate: defaultThreshold is not an integer constant")
 		failed++
+	}
+	// the model is sequential: no construct of concurrent execution may be reachable from the entry points
+	{
+		total, nreached := 0, 0
+		var lines []string
+		bad := false
+		for _, sc := range []struct {
+			dir, path string
+			roots     []string
+		}{
+			{"annotate/internal/core", "github.com/paulmach/osm/annotate/internal/core", []string{"Compute"}},
+			{"annotate", "github.com/paulmach/osm/annotate", []string{"Ways", "Relations"}},
+			{"annotate/shared", "github.com/paulmach/osm/annotate/shared", []string{"Child.Update"}},
+		} {
+			pk, err := tr.Load(filepath.Join(repo, sc.dir), sc.path)
+			if err == nil {
+				var f []string
+				var n int
+				if f, n, err = concurrent(pk, sc.roots); err == nil {
+					total += len(f)
+					nreached += n
+					for _, l := range f {
+						lines = append(lines, sc.dir+"/"+l)
+					}
+				}
+			}
+			if err != nil {
+				fmt.Fprintf(&text, "(* NOT TRANSLATED sequentiality of %s: %v *)\n\n", sc.dir, err)
+				fmt.Fprintln(os.Stderr, "translator annotate:", err)
+				failed++
+				bad = true
+			}
+		}
+		if !bad {
+			fmt.Fprintf(&text, "(* constructs of concurrent execution (go, channels, select, sync, sync/atomic) in the %d functions reachable from\n   core.Compute, annotate.Ways, annotate.Relations, shared.Child.Update", nreached)
+			for _, l := range lines {
+				text.WriteString("\n   " + l)
+			}
+			fmt.Fprintf(&text, " *)\nDefinition gen_concurrent_constructs : Z := %d.\n\n", total)
+		}
 	}
 	if err := tr.Emit(filepath.Join(out, "GenAnnotate.v"), text.Bytes()); err != nil {
 		fmt.Fprintln(os.Stderr, err)
